@@ -679,6 +679,26 @@ func (d *Driver) judgeC04() {
 				if iv.v.P.OK && iv.v.P.ID == in.cfg.ID && iv.v.P.Token == a.TokenAtInv {
 					ok = true
 				}
+				if a.Kind == AValidateOD && iv.v.P.OK && iv.v.P.ID == in.cfg.ID {
+					// ValidateTokenOrDemote judges the term that leads when it reads (a term that
+					// began during the call is "the caller's current term" from then on): the
+					// record held that term's token at a moment of the call at which the term ran
+					for _, x := range terms {
+						if x.Inst != a.Inst || x.Gen != a.Gen || x.Token == "" || x.Token != iv.v.P.Token {
+							continue
+						}
+						lo, hi := maxDur(maxDur(iv.a, x.Start), a.TInv), a.TRet
+						if iv.b < hi {
+							hi = iv.b
+						}
+						if x.Fall != nil && x.End < hi {
+							hi = x.End
+						}
+						if lo <= hi {
+							ok = true
+						}
+					}
+				}
 			}
 			if !ok {
 				d.h.violate("C04", "true-without-matching-record/"+a.Kind, fmt.Sprintf("i%d %s returned true over [%v,%v] (term token %s) but the record never held its id and token in that interval; record versions: %v", a.Inst, a.Kind, a.TInv, a.TRet, short(a.TokenAtInv), seen), a.TRet, a.SRet)
@@ -1409,4 +1429,11 @@ func trunc(x string, n int) string {
 		return x[:n] + "..."
 	}
 	return x
+}
+
+func maxDur(a, b time.Duration) time.Duration {
+	if a > b {
+		return a
+	}
+	return b
 }
